@@ -194,22 +194,6 @@ Definition spec_eff_c (fl : flags) (d : json) : eff :=
      e_visualize := effective (flag_of (f_visualize fl)) (flat_bool d "visualize_deps") false;
      e_force := effective (flag_of (f_force fl)) (flat_bool d "force") false |}.
 
-(* C19-8: the standalone file is validated on its own, before the flags are applied: its
-   (possibly defaulted) project path or library is invalid although the effective
-   settings are valid *)
-Definition kf_cfile_prevalidated (f : fs) (fl : flags) (p : string) : bool :=
-  match fs_get f p with
-  | Some (NDoc (Some d)) =>
-      match from_flat d with
-      | Some c => match validate f c with
-                  | Some _ => negb (spec_invalid f (spec_eff_c fl d))
-                  | None => false
-                  end
-      | None => false
-      end
-  | _ => false
-  end.
-
 (* generate -c: a missing, unreadable or malformed file is refused; otherwise as generate *)
 Definition generate_c_ok_b (f : fs) (fl : flags) (p : string) (o : cli_obs) : bool :=
   match fs_get f p with
